@@ -2,10 +2,16 @@ package main
 
 import (
 	"context"
+	"errors"
+	"fmt"
+	"github.com/celestiaorg/go-header/store"
 	"os"
 	"strconv"
 	"strings"
+	"sync"
+	"time"
 	"verifharness/memds"
+	"verifharness/vhdr"
 )
 
 func init() {
@@ -34,6 +40,8 @@ func parseStoreCase(text string) (prop string, cfg storeCfg, ops []storeOp, rang
 					cfg.cache = v
 				case "flavour":
 					cfg.flavour = p[1]
+				case "par":
+					cfg.par = v
 				case "n":
 					cfg.n = v
 				case "ranges":
@@ -163,9 +171,12 @@ func genStoreCase(prop string, r *rng, tier string) {
 		flavour: []string{"plain", "ctx"}[r.intn(2)],
 		n:       6 + r.intn(9),
 	}
+	if (prop == "C08" || prop == "C14") && r.chance(1, 4) {
+		cfg.par = []int{2, 3, 5}[r.intn(3)] // short ranges reach deleteParallel
+	}
 	ranges := prop == "C04" && (tier == "thorough" || r.chance(1, 6))
 	caseNo++
-	emit("case %d %s batch=%d cache=%d flavour=%s n=%d ranges=%d", caseNo, prop, cfg.batch, cfg.cache, cfg.flavour, cfg.n, b2i(ranges))
+	emit("case %d %s batch=%d cache=%d flavour=%s n=%d ranges=%d par=%d", caseNo, prop, cfg.batch, cfg.cache, cfg.flavour, cfg.n, b2i(ranges), cfg.par)
 	run := newStoreRun(cfg, memdsCore())
 	if err := run.open(); err != nil {
 		emit("ob res=openerr")
@@ -177,7 +188,7 @@ func genStoreCase(prop string, r *rng, tier string) {
 		nh := 1 + r.intn(3)
 		for i := 0; i < nh; i++ {
 			sc := "-"
-			if prop == "C14" && r.chance(2, 3) {
+			if prop == "C14" && cfg.par == 0 && r.chance(2, 3) { // call-index scripts need the sequential order
 				var fs []string
 				for k := 0; k < 1+r.intn(2); k++ {
 					fs = append(fs, strconv.Itoa(r.intn(12))+string("epn"[r.intn(3)]))
@@ -237,6 +248,19 @@ func runStoreProp(prop, tier string, r *rng) {
 	if tier == "thorough" {
 		n = 6000
 	}
+	if prop == "C04" {
+		parFailCase(prop, 40, 31, 12, 4, true)
+		parFailCase(prop, 40, 31, 12, 4, false)
+	}
+	if prop == "C08" || prop == "C14" {
+		for round := 0; round < 4; round++ {
+			parFailCase(prop, 40, 31, 12, 4, false)
+			parFailCase(prop, 30, 30, 20, 3, false)
+		}
+		parFailCase(prop, 20, 21, 15, 5, false) // whole-chain range
+		parFailCase(prop, 40, 31, 12, 4, true)  // a single refusing height: other workers carry on above it
+		parFailCase(prop, 30, 30, 3, 3, true)
+	}
 	for i := 0; i < n; i++ {
 		genStoreCase(prop, r, tier)
 	}
@@ -244,7 +268,7 @@ func runStoreProp(prop, tier string, r *rng) {
 
 func replayStoreCase(prop string, cfg storeCfg, ops []storeOp, ranges bool) {
 	caseNo++
-	emit("case %d %s batch=%d cache=%d flavour=%s n=%d ranges=%d", caseNo, prop, cfg.batch, cfg.cache, cfg.flavour, cfg.n, b2i(ranges))
+	emit("case %d %s batch=%d cache=%d flavour=%s n=%d ranges=%d par=%d", caseNo, prop, cfg.batch, cfg.cache, cfg.flavour, cfg.n, b2i(ranges), cfg.par)
 	run := newStoreRun(cfg, memdsCore())
 	if err := run.open(); err != nil {
 		emit("ob res=openerr")
@@ -259,3 +283,105 @@ func replayStoreCase(prop string, cfg storeCfg, ops []storeOp, ranges bool) {
 }
 
 func memdsCore() *memds.Core { return memds.NewCore() }
+
+// parFailCase: DeleteRange(1,to) on 1..n through the PARALLEL path with a handler refusing every height >= failFrom;
+// then the handler heals and the deletion is retried.
+func parFailCase(prop string, n, to, failFrom, par int, only bool) {
+	ctx := context.Background()
+	old := store.VerifSetDeleteRangeParallelThreshold(uint64(par))
+	defer store.VerifSetDeleteRangeParallelThreshold(old)
+	chain := vhdr.Chain("A", n, storeT0, int64(time.Second), 0)
+	core := memds.NewCore()
+	st, err := store.NewStore[*vhdr.Header](&memds.Plain{C: core}, store.WithWriteBatchSize(8))
+	if err != nil {
+		panic(err)
+	}
+	if err := st.Start(ctx); err != nil {
+		panic(err)
+	}
+	defer st.Stop(ctx) //nolint:errcheck
+	_ = st.Append(ctx, chain...)
+	_ = st.Sync(ctx)
+	var mu sync.Mutex
+	healed := false
+	okCalls, badCalls := map[uint64]int{}, map[uint64]int{}
+	unreadable := 0
+	st.OnDelete(func(ctx context.Context, h uint64) error {
+		mu.Lock()
+		defer mu.Unlock()
+		c, cancel := context.WithCancel(ctx)
+		cancel()
+		if x, err := st.GetByHeight(c, h); err != nil || x.H != h {
+			unreadable++
+		}
+		if !healed && (h == uint64(failFrom) || (!only && h > uint64(failFrom))) {
+			badCalls[h]++
+			time.Sleep(200 * time.Microsecond) // several workers are inside a failing handler at once
+			return errors.New("scripted handler error")
+		}
+		okCalls[h]++
+		return nil
+	})
+	view := func() (tail, head uint64, stored, keys []string) {
+		if t, err := st.Tail(ctx); err == nil {
+			tail = t.H
+		}
+		if h, err := st.Head(ctx); err == nil {
+			head = h.H
+		}
+		for h := 1; h <= n; h++ {
+			if x, err := st.GetByHeight(cancelled, uint64(h)); err == nil && x.H == uint64(h) {
+				stored = append(stored, itoa(h))
+			}
+		}
+		snap := core.Snapshot()
+		for h := 1; h <= n; h++ {
+			if _, ok := snap["/"+itoa(h)]; ok {
+				keys = append(keys, itoa(h))
+			} else if _, ok := snap["/headers/"+itoa(h)]; ok {
+				keys = append(keys, itoa(h))
+			}
+		}
+		return
+	}
+	js := func(xs []string) string {
+		if len(xs) == 0 {
+			return "-"
+		}
+		return strings.Join(xs, ",")
+	}
+	dctx, cancel := context.WithTimeout(ctx, 5*time.Second)
+	e1 := st.DeleteRange(dctx, 1, uint64(to))
+	cancel()
+	t1, h1, s1, k1 := view()
+	// handled: heights whose handler succeeded exactly once so far
+	var once1 []string
+	mu.Lock()
+	for h := 1; h <= n; h++ {
+		if okCalls[uint64(h)] == 1 {
+			once1 = append(once1, itoa(h))
+		}
+	}
+	healed = true
+	mu.Unlock()
+	dctx2, cancel2 := context.WithTimeout(ctx, 5*time.Second)
+	var e2 error
+	if t1 < uint64(to) && t1 >= 1 {
+		e2 = st.DeleteRange(dctx2, t1, uint64(to))
+	}
+	cancel2()
+	if e2 != nil && os.Getenv("VERIF_DEBUG") != "" {
+		fmt.Fprintln(os.Stderr, "parfail retry error:", e2)
+	}
+	t2, h2, s2, k2 := view()
+	mu.Lock()
+	multi := 0
+	for _, c := range okCalls {
+		if c > 1 {
+			multi++
+		}
+	}
+	mu.Unlock()
+	emit("%s kind=parfail n=%d to=%d failfrom=%d par=%d only=%d => res1=%s tail1=%d head1=%d stored1=%s keys1=%s handled1=%s res2=%s tail2=%d head2=%d stored2=%s keys2=%s handledTwice=%d unreadableAtCall=%d",
+		prop, n, to, failFrom, par, b2i(only), errs(e1), t1, h1, js(s1), js(k1), js(once1), errs(e2), t2, h2, js(s2), js(k2), multi, unreadable)
+}
